@@ -374,6 +374,12 @@ func inferFuncAs(pkg *Package, fn *internal.Elem, sig *types.Signature, targs []
 
 func inferFuncWith(pkg *Package, fn *internal.Elem, sig *types.Signature, targs []types.Type, params *types.Tuple, args []*Element) ([]types.Type, types.Type, error) {
 	var err error
+	for _, arg := range args {
+		if arg.Type == nil { // e.g. a call of a function without result used as argument
+			src, _, _ := pkg.cb.loadExpr(arg.Src)
+			return nil, nil, fmt.Errorf("%v (no value) used as value", src)
+		}
+	}
 	tp := sig.TypeParams()
 	n := tp.Len()
 	tparams := make([]*types.TypeParam, n)
